@@ -77,8 +77,9 @@ class LockModel:
         """Returns dict: 'acq' -> list of acquisitions {bb, mode, waits, cls, line};
         'held_in'[bb] -> frozenset of acquisition indices held on entry to bb's terminator (i.e. during the call);
         """
-        if body.path in self._body:
-            return self._body[body.path]
+        key = (body.path, hasattr(body, "base"))
+        if key in self._body:
+            return self._body[key]
         acqs = []
         acq_at = {}
         for bb, t in body.calls(include_cleanup=False):
@@ -89,7 +90,7 @@ class LockModel:
                 acq_at[bb] = idx
         res = {"acq": acqs, "held_at_term": {}, "held_after": {}}
         if not acqs:
-            self._body[body.path] = res
+            self._body[key] = res
             return res
         def flow(must):
             IN = {0: frozenset()}
@@ -158,7 +159,7 @@ class LockModel:
         held_term = flow(False)
         res["must_held_at_term"] = flow(True)
         res["held_at_term"] = held_term
-        self._body[body.path] = res
+        self._body[key] = res
         return res
 
     def held_classes_at(self, body, bb):
